@@ -1,0 +1,15 @@
+//go:build !verif
+
+package lossy
+
+// Scheduling hook points of the row-pipelined encoder; no-ops unless built
+// with the "verif" tag (see verif_sched.go).
+const (
+	verifEvClaim = iota
+	verifEvProc
+	verifEvSignal
+	verifEvRecord
+	verifEvSlowWait
+)
+
+func verifSched(ev int, w *RowWorker, y, x int) {}
